@@ -65,6 +65,7 @@ def run_property(pid, tier, repo, seed):
     obligations = 0
     discharged = 0
     bounded = []
+    undecided = []
     solver_s = 0.0
     cmds = []
     notes = []
@@ -118,6 +119,14 @@ def run_property(pid, tier, repo, seed):
         for h in kr['harnesses']:
             tags = [t for t in h['tags'] if t.startswith(pid + '.')]
             if h['status'] == 'undecided':
+                tool_limit = 'timed out' in h.get('reason', '') or 'tool limit' in h.get('reason', '') or 'no verdict' in h.get('reason', '')
+                if h.get('optional') and tool_limit:
+                    # harness known to sit at the edge of what CBMC finishes here: a time-out is recorded, not counted, and
+                    # does not make the check fail (anything else - lost anchor, non-reproducing counterexample - still does)
+                    for t in tags:
+                        undecided.append(dict(obligation=t, harness=h['name'], reason='tool limit (time-out / memory) on this run'))
+                    notes.append(f"kani harness {h['name']}: tool limit, recorded as undecided: {h['reason'][:160]}")
+                    continue
                 raise Undecided(f"kani harness {h['name']}: {h['reason']}")
             ftags = set(t for t in h.get('failed_tags', []) if t.startswith(pid + '.'))
             if h['status'] == 'failed' and not ftags and h.get('failed_tags'):
@@ -184,6 +193,7 @@ def run_property(pid, tier, repo, seed):
         trusted_base=P.TRUSTED_BASE + [f'{k} x{v}' for k, v in sorted(trusted.items())],
         samples=samples[:600],
         bounded_obligations=bounded,
+        undecided_obligations=undecided,
         functions_under_contract=sorted(set(functions)),
         extraction=extraction,
         solver_time_s=round(solver_s, 2),
@@ -203,7 +213,7 @@ def run_property(pid, tier, repo, seed):
     evdir = os.environ.get('VERIF_EVIDENCE_DIR') or (os.path.join(HERE, 'evidence') if os.path.realpath(repo) == '/repo' and not os.environ.get('VERIF_ONLY') else os.path.join(SCRATCH_ROOT, 'evidence-scratch'))
     os.makedirs(evdir, exist_ok=True)
     json.dump(ev, open(os.path.join(evdir, pid + '.json'), 'w'), indent=1)
-    print(f"{pid}: {discharged}/{obligations} complete obligations discharged, {len(bounded)} bounded, "
+    print(f"{pid}: {discharged}/{obligations} complete obligations discharged, {len(bounded)} bounded, {len(undecided)} undecided (tool limit), "
           f"{len(known_hits)} known findings, {len(seen)} new violations, {wall:.1f}s")
     return exit_code
 
